@@ -119,7 +119,7 @@ type Term struct {
 	varsP atomic.Pointer[[]int32]
 }
 
-func (t *Term) IsConst() bool { return t.op == OpConst }
+func (t *Term) IsConst() bool  { return t.op == OpConst }
 func (t *Term) String() string { return termString(t, 0) }
 
 func termString(t *Term, depth int) string {
@@ -185,7 +185,6 @@ var (
 	termSeq    int32
 	termByID   sync.Map // id -> *Term (only vars, for model decoding)
 )
-
 
 func intern(op Op, sort Sort, val uint64, aux int, name string, args ...*Term) *Term {
 	k := termKey{op: op, sort: sort, val: val, aux: aux, name: name, a0: -1, a1: -1, a2: -1}
@@ -259,12 +258,12 @@ func mkVar(name string, s Sort) *Term {
 	return intern(OpVar, s, 0, 0, name)
 }
 
-func (t *Term) Bool() bool      { return t.val != 0 }
-func (t *Term) Uint() uint64    { return t.val }
-func (t *Term) Int() int64      { return signExt(t.val, t.sort.Bits) }
-func (t *Term) Float() float64  { return math.Float64frombits(t.val) }
-func isTrue(t *Term) bool       { return t == tTrue }
-func isFalse(t *Term) bool      { return t == tFalse }
+func (t *Term) Bool() bool     { return t.val != 0 }
+func (t *Term) Uint() uint64   { return t.val }
+func (t *Term) Int() int64     { return signExt(t.val, t.sort.Bits) }
+func (t *Term) Float() float64 { return math.Float64frombits(t.val) }
+func isTrue(t *Term) bool      { return t == tTrue }
+func isFalse(t *Term) bool     { return t == tFalse }
 
 func mkNot(a *Term) *Term {
 	if a.op == OpConst {
